@@ -9,12 +9,12 @@ import HtmlVerif.Spec.Html
 
 namespace HtmlVerif
 
-def hasKey (tbl : List (Char × Str)) (c : Char) : Bool := tbl.any fun kv => kv.1 == c
+def tblHasKey (tbl : List (Char × Str)) (c : Char) : Bool := tbl.any fun kv => kv.1 == c
 
 /-- no replacement string contains a *later* key (so later passes leave earlier output alone) -/
 def seqOk : List (Char × Str) → Bool
   | [] => true
-  | (_, v) :: t => v.all (fun c => !hasKey t c) && seqOk t
+  | (_, v) :: t => v.all (fun c => !tblHasKey t c) && seqOk t
 
 /-- the replacement is `&body;` and `decodeRefs` reads it back as the key -/
 def refOk (kv : Char × Str) : Bool :=
@@ -22,7 +22,7 @@ def refOk (kv : Char × Str) : Bool :=
   kv.2 == '&' :: body ++ [';'] && body.all isRefChar && refBody body == some kv.1
 
 def tblOk (stop : Char) (tbl : List (Char × Str)) : Bool :=
-  seqOk tbl && tbl.all refOk && hasKey tbl '&' && hasKey tbl stop
+  seqOk tbl && tbl.all refOk && tblHasKey tbl '&' && tblHasKey tbl stop
     && tbl.all (fun kv => !kv.2.contains stop)
 
 def TextTblOk (tbl : List (Char × Str)) : Prop := tblOk '<' tbl = true
